@@ -147,7 +147,9 @@ def client_config(issuer=ISS, client_id=CLIENT_ID, sigalg=None, allow_none=False
         },
     }
     if sigalg is not None:
-        conf["id_token_signed_response_alg"] = sigalg
+        # how an RP is configured for an ID-token signing algorithm: its preference list; the usage
+        # id_token_signed_response_alg is derived from it
+        conf["id_token_signing_alg_values_supported"] = [sigalg]
     if allow_missing_kid:
         conf["allow"] = {"missing_kid": True}
     if response_types:
